@@ -386,6 +386,10 @@ func (s *MemoryAllocationStore) UnmarshalJSON(data []byte) error {
 // PoolAllocator combines an IPAllocator with an AllocationStore
 // for integrated allocation and persistence.
 type PoolAllocator struct {
+	// mu makes "reserve in the bitmap, persist, roll back on failure" (and
+	// "remove the record, release the bitmap") one step: the allocator and the
+	// store are each thread-safe, the sequence of calls into them was not.
+	mu        sync.Mutex
 	allocator *IPAllocator
 	store     AllocationStore
 	poolID    string
@@ -468,6 +472,9 @@ type AllocateOptions struct {
 
 // AllocateWithOptions allocates a prefix with additional options for DHCPv6.
 func (p *PoolAllocator) AllocateWithOptions(ctx context.Context, opts AllocateOptions) (*net.IPNet, error) {
+	p.mu.Lock()
+	defer p.mu.Unlock()
+
 	existed := p.allocator.Lookup(opts.SubscriberID) != nil
 	prefix, err := p.allocator.Allocate(opts.SubscriberID)
 	if err != nil {
@@ -500,6 +507,9 @@ func (p *PoolAllocator) AllocateWithOptions(ctx context.Context, opts AllocateOp
 
 // Release releases a subscriber's allocation and removes from store.
 func (p *PoolAllocator) Release(ctx context.Context, subscriberID string) error {
+	p.mu.Lock()
+	defer p.mu.Unlock()
+
 	if p.allocator.Lookup(subscriberID) == nil {
 		return p.allocator.Release(subscriberID) // reports "not allocated"
 	}
